@@ -73,3 +73,29 @@ Theorem C06_no_state_outside_the_arguments :
     [(lit "WeightedAuthorizationModelGraphBuilder", lit "DirectedMultigraphBuilder");
      (lit "WeightedAuthorizationModelGraphBuilder", lit "drawingDirection")].
 Proof. split; vm_compute; reflexivity. Qed.
+
+(* "reordering the operands of a union or intersection changes no relation's weights": the weights an operator node gets are
+   a symmetric function of its operand edges — any permutation of the edge weight maps gives the same weight for every type
+   (union/plain relation: maximum; intersection: the types every edge has; exclusion: symmetric in the base edges).  With
+   C04_*_strategy_is_the_code these are the maps the assignment stores. *)
+From Coq Require Import Permutation.
+From Verif Require Import Proofs.StrategyProofs Proofs.OperandOrder.
+Theorem C06_union_operand_order : forall ws ws' k,
+  Permutation ws ws' -> Forall (fun w => NoDup (keys w)) ws -> wget k (max_weights ws) = wget k (max_weights ws').
+Proof. exact union_operand_order. Qed.
+Theorem C06_intersection_operand_order : forall first rest first' rest' k,
+  Permutation (first :: rest) (first' :: rest') -> NoDup (keys first) -> NoDup (keys first') ->
+  wget k (enforce_weights first rest) = wget k (enforce_weights first' rest').
+Proof. exact intersection_operand_order. Qed.
+Theorem C06_exclusion_base_order : forall init init' last_w k,
+  Permutation init init' -> Forall (fun w => NoDup (keys w)) init -> NoDup (keys last_w) ->
+  wget k (raise_only (max_weights init) last_w) = wget k (raise_only (max_weights init') last_w).
+Proof. exact exclusion_base_order. Qed.
+
+(* ... and on the property's own definition of weights (Spec/Weights.v, on the MODEL): two models that differ only in the order
+   of the operands of unions and intersections — at any nesting depth, in any number of relations ([perm_model]) — give every
+   relation the same depth for every user type *)
+From Verif Require Import Spec.Weights Proofs.SpecOperandOrder.
+Theorem C06_operand_order_on_the_model : forall m m', perm_model m m' ->
+  forall ty rel k, wget k (spec_of m ty rel) = wget k (spec_of m' ty rel).
+Proof. exact spec_of_operand_order. Qed.
